@@ -59,6 +59,7 @@ type Report struct {
 	Shared     *Shared
 	Witness    []WitnessResult
 	Configs    []string
+	VerifDir   string
 }
 
 func NewReport(p *Prog, property, tier string) *Report {
